@@ -95,11 +95,11 @@ func (c *chooser) loadStep(K int) string {
 		}
 		return "Y" + text[1:] // the same options, upstreams from a dynamic source
 	}
-	if !c.timed && c.ticks == 0 && p == 1 && r.Chance(1, 7) {
+	if !c.timed && c.ticks == 0 && p == 1 && r.Chance(1, 10) {
 		c.lat = true
 		return text + fmt.Sprintf(":%d:1", r.Intn(3)) // unhealthy_latency configured
 	}
-	if r.Chance(1, 8) {
+	if r.Chance(1, 12) {
 		return text + fmt.Sprintf(":%d:2", r.Intn(3)) // active health checks run in the background
 	}
 	if r.Chance(1, 8) {
@@ -157,7 +157,12 @@ func (c *chooser) next(k *kase) (step, bool) {
 				if len(parked) > 0 {
 					rid := parked[r.Intn(len(parked))]
 					out := r.Pick(answerPick)
-					if q := k.reqs[rid]; q.cfg.st.lat && q.cfg.st.p && c.slow < 2 && r.Chance(1, 3) {
+					if k.reqs[rid].streaming {
+						out = "se"
+					} else if r.Chance(1, 9) {
+						out = "sb"
+					}
+					if q := k.reqs[rid]; !q.streaming && out != "sb" && q.cfg.st.lat && q.cfg.st.p && c.slow < 2 && r.Chance(1, 3) {
 						out = "sl"
 						c.slow++
 					}
@@ -247,7 +252,7 @@ func (p *prop) Generate(rng *core.Rand, tier string, emit func(string)) {
 		emit("sched 1 L:0:1:100:1:0:0:0") // reports harness-infra
 		return
 	}
-	nPlain, nTimed, nBad, nStress := 6000, 400, 300, 50
+	nPlain, nTimed, nBad, nStress := 5000, 350, 250, 40
 	maxLen := 26
 	switch tier {
 	case "thorough":
